@@ -60,10 +60,19 @@ func findIntersection(seg0, seg1 segment) (int, Point, Point) {
 	if exceeds(kross, sqrLen0, sqrLen1) {
 		// lines of the segments are not parallel
 		s := (E.X*d1.Y - E.Y*d1.X) / kross
+		t := (E.X*d0.Y - E.Y*d0.X) / kross
+		if big := func(p Point) bool { return math.Abs(p.X) > 1e150 || math.Abs(p.Y) > 1e150 }; big(E) || big(d0) || big(d1) {
+			// The cross products overflow for differences beyond 1e154 (a
+			// segment reaching out to 1.2e308 times an ordinary ordinate of
+			// 1.5 already does): the crossing of such a segment with an
+			// ordinary one was then missed or invented. s and t are ratios
+			// of cross products, so each of the three vectors can be scaled
+			// by a power of two of its own, which is exact.
+			s, t = scaledCrossRatios(E, d0, d1)
+		}
 		if s < 0 || s > 1 {
 			return 0, Point{}, Point{}
 		}
-		t := (E.X*d0.Y - E.Y*d0.X) / kross
 		if t < 0 || t > 1 {
 			return 0, nanPoint, nanPoint
 		}
@@ -107,6 +116,27 @@ func findIntersection(seg0, seg1 segment) (int, Point, Point) {
 	}
 
 	return imax, pi0, pi1
+}
+
+// scaledCrossRatios returns cross(E,d1)/cross(d0,d1) and
+// cross(E,d0)/cross(d0,d1) without overflow: every vector is first scaled by
+// the power of two that brings its larger component below 1.
+func scaledCrossRatios(E, d0, d1 Point) (s, t float64) {
+	norm := func(p Point) (Point, int) {
+		m := math.Max(math.Abs(p.X), math.Abs(p.Y))
+		if m == 0 || math.IsInf(m, 0) || math.IsNaN(m) {
+			return p, 0
+		}
+		_, e := math.Frexp(m)
+		return Point{X: math.Ldexp(p.X, -e), Y: math.Ldexp(p.Y, -e)}, e
+	}
+	e, eE := norm(E)
+	a, e0 := norm(d0)
+	b, e1 := norm(d1)
+	k := a.X*b.Y - a.Y*b.X
+	s = math.Ldexp((e.X*b.Y-e.Y*b.X)/k, eE-e0)
+	t = math.Ldexp((e.X*a.Y-e.Y*a.X)/k, eE-e1)
+	return s, t
 }
 
 func findIntersection2(u0, u1, v0, v1 float64, w *[]float64) int {
